@@ -25,6 +25,11 @@ FAM = {
         "zero": [[[0, 0], [0, 0]], [[0, 0], [0, 0]], [[0, 0], [0, 0]]],
         "asym": [[[2, -1], [0, 2]], [[1, -1], [1, 1]], [[2, 0], [-1, 2]]],
         "large": [[[1000, -1], [-1, 1]], [[1, -1], [-1, 100000]], [[3, -2], [70000, 3]]],
+        # two awkward features in one matrix
+        "asymneg": [[[-1, -3], [-2, -1]], [[-2, -1], [-3, -2]], [[-1, -2], [-1, -3]]],       # asymmetric + all negative
+        "largeneg": [[[1, -100000], [-1, 1]], [[-70000, 0], [0, -1]], [[2, -1], [-1000, 2]]],  # one large NEGATIVE entry
+        "asymlarge": [[[1000, -1], [0, 1]], [[1, 1], [-1, 100000]], [[0, 70000], [-2, 3]]],   # asymmetric + large + ties
+        "zerorow": [[[0, 0], [-1, 2]], [[2, -1], [0, 0]], [[0, 1], [0, -1]]],                 # zero row + asymmetric
     },
     (3, 3): {
         "std": [[[2, -1, -1], [-1, 2, -1], [-1, -1, 2]], [[1, -1, -1], [-1, 1, -1], [-1, -1, 1]],
